@@ -393,7 +393,7 @@ func (in *Interp) convert(from, to types.Type, x value) value {
 	if fint && tint {
 		return x // bool to bool
 	}
-	panic(unsupported(fmt.Sprintf("conversion %s -> %s", from, to)))
+	panic(unsupported(fmt.Sprintf("conversion %s -> %s at %s", from, to, in.where())))
 }
 
 // divByConst encodes x / c and x % c for a constant c that is not a power of two by witness
